@@ -72,6 +72,17 @@ def contexts(tier):
         "typedef int a ; void y ( void ) { ?K ?N ; { ?K ?N ; a * b ; } a * b ; }",
         "typedef int a ; void y ( ?K ?N ) { ?K ?N ; a * b ; }",
         "typedef int a ; int b = { sizeof ( a ) } ; ?K a ; int y = { ( a ) * b } ;",
+        # sibling scopes at the same depth: what one block declared or looked up must not leak into the next
+        "typedef int a ; void y ( void ) { { int a ; a = 1 ; } { a * b ; } }",
+        "typedef int a ; void y ( void ) { { ?K ?N ; ?N = 1 ; } { a * b ; ( a ) ( b ) ; } { ?K ?N ; } a * b ; }",
+        "typedef int a ; void y ( void ) { if ( 1 ) { int a ; a = 1 ; } else { a * b ; } }",
+        "typedef int a ; void y ( int a ) { a = 1 ; } void b ( void ) { a * y ; }",
+        "typedef int a ; void y ( void ) { { typedef char b ; b y ; } { b * a ; } }",
+        "typedef int a ; struct y { int a ; } ; void b ( void ) { { int a ; a = 1 ; } { sizeof ( a ) ; } }",
+        # block-scope function declarations and multi-declarator declarations hiding a typedef
+        "typedef int a ; void y ( void ) { int a ( void ) , b = sizeof ( a ) ; }",
+        "typedef int a ; void y ( void ) { int a ( void ) , b = ( a ) ( 1 ) ; }",
+        "typedef int a ; void y ( void ) { int ( * a ) ( void ) , b = sizeof ( a ) , y [ sizeof ( a ) ] ; }",
     ]
     for i, p in enumerate(pats):
         out.append((PatCtx(f"history{i}:{p}", [], p, [], cls), 0))
